@@ -87,3 +87,14 @@ def wingbox_keys():
         "twist_cp": np.array([4.0, 5.0]),
         "fuel_density": 803.0,
     }
+
+
+def surface_from_mesh(mesh, symmetry, name="wing", **over):
+    """surface dictionary around a given concrete mesh (any ny)"""
+    s = copy.deepcopy(BASE)
+    s["name"] = name
+    s["symmetry"] = symmetry
+    s["mesh"] = np.array(mesh, dtype=float)
+    s["num_x"], s["num_y"] = mesh.shape[0], mesh.shape[1]
+    s.update(over)
+    return s
